@@ -993,7 +993,7 @@ def families(tier):
                                     'd=1', 'd=4', 'against_has_equal_point',
                                     'col0_distinct(avoids_known_fast_ties)')),
       core.Family('pure_jax', check_jax, strategy=jax_strategy,
-                  budget={'quick': 800, 'thorough': 20000},
+                  budget={'quick': 800, 'thorough': 15000},
                   shards={'quick': 8, 'thorough': 16},
                   required_classes=('tie_opt_nonopt', 'dup_optimal', 'has_inf',
                                     'n=0', 'n=13..40', 'num_shards=1',
